@@ -144,7 +144,7 @@ CHECKS["C03"] = {
     "tests": [T("TestC03", 300, 4000)],
     "level": "exploration",
     "technique": "property-based testing (rapid): generated write lists x hostile author kinds x delivery routes (incl. hidden behind a colluding writer's entry) with a canary proving the route processed the input; invariant: no hostile address in log/Values/heads/view, refused local write changes nothing",
-    "rule": "rapid draws a store type, a write list (explicit subset, wildcard, none => creator only, creator explicit), 1-2 authors with a short honest history, whether the victim already holds it, a hostile kind (honest entry by an identity outside the list; writer's id copied onto the attacker's identity; writer's whole identity block copied with the attacker's key and signature; writer's identity block and key field with the attacker's signature; local write call on the non-writer's own replica), a hostile chain length 1-3, a route (manual Sync, topic message, direct payload, ancestor referenced by a valid entry signed by a colluding authorised writer) and 0-2 honest writes afterwards. An entry counts as the attacker's when it carries/is signed with the attacker's key. After an honest canary sent by the same route is visible and the replica rests: no hostile address is in the victim's log, Values(), heads or view and order/view match the models; with the wildcard list only the unverifiable kind is asserted. Local write: every write call returns an error and log length, heads, view, cached _localHeads, write events, published messages and the other replica are unchanged. The two forged-author kinds are a recorded OPEN finding: when listed in known_findings.txt they are excluded by construction (counted) and two witness replays must still classify as known. non-trivial = the victim fetched blocks for the hostile input (or the refused write hit a non-empty store); distinct = SHA-1 of the case JSON",
+    "rule": "rapid draws a store type, a write list (explicit subset, wildcard, none => creator only, creator explicit), 1-2 authors with a short honest history, whether the victim already holds it, a hostile kind (honest entry by an identity outside the list; the same written for a database of the non-writer's own; writer's id copied onto the attacker's identity; writer's whole identity block copied with the attacker's key and signature; writer's identity block and key field with the attacker's signature; local write call on the non-writer's own replica), a hostile chain length 1-3, a route (manual Sync, topic message, direct payload, ancestor referenced through next, or through refs, by a valid entry signed by a colluding authorised writer) and 0-2 honest writes afterwards. An entry counts as the attacker's when it carries/is signed with the attacker's key. After an honest canary sent by the same route is visible and the replica rests: no hostile address is in the victim's log, Values(), heads or view and order/view match the models; with the wildcard list only the unverifiable kind is asserted. Local write: every write call returns an error and log length, heads, view, cached _localHeads, write events, published messages and the other replica are unchanged. The two forged-author kinds are a recorded OPEN finding: when listed in known_findings.txt they are excluded by construction (counted) and two witness replays must still classify as known. non-trivial = the victim fetched blocks for the hostile input (or the refused write hit a non-empty store); distinct = SHA-1 of the case JSON",
     "level_text": "Generated cases; no exhaustiveness claimed.",
     "level_note": "Access controller type ipfs (the default); the simple controller is only reachable through options that bypass the manifest and is not generated. Trusted: the dependency's signature verification.",
     "design_ref": "5/C03",
@@ -178,7 +178,7 @@ CHECKS["C14"] = {
     "tests": [T("TestC14", 300, 6000)],
     "level": "exploration",
     "technique": "property-based testing (rapid): name grammar incl. names derived from earlier addresses of the same case x type x write list on three peers; determinism/injectivity table, parse round trip, manifest read-back, create/overwrite/open/local-only outcomes",
-    "rule": "rapid draws 2-4 (name, type, write list) tuples per case; names come from a pool of 30 (ASCII, unicode, spaces, nested, empty, '.', '..', 'a/../b', leading/trailing/double slashes, and names built from the first tuple's address root: '<root>', '<root>/x', '/orbitdb/<root>/x', '../<root>/x', 'y/../../<root>/z', ...) or a random string over [a-zA-Z0-9._/ -]; write list in {none, *, [p0], [p0,p1], [p1,p2]}. For every tuple: DetermineAddress twice on one peer and (explicit list) on a second peer must agree (same address, or refused on both); the printed address parses back to the same root, path and text; the root block is a manifest recording exactly this name and type; within the case equal inputs (name, type, effective write list) give equal addresses and different inputs different ones; Create returns a store at that address and of that type, a second Create is refused, with Overwrite accepted; Open on another peer gives the same type and GetAuthorizedByRole(write) == the list given (or the creator's id); a local-only Open is refused on a peer that never saw the database and accepted on the creator. A refusal by DetermineAddress/Create is accepted for any name. non-trivial = an accepted name containing a '.'/'..' segment or embedding an earlier root; distinct = SHA-1 of the case JSON",
+    "rule": "rapid draws 2-4 (name, type, write list) tuples per case; names come from a pool of 30 (ASCII, unicode, spaces, nested, empty, '.', '..', 'a/../b', leading/trailing/double slashes, and names built from the first tuple's address root: '<root>', '<root>/x', '/orbitdb/<root>/x', '../<root>/x', 'y/../../<root>/z', ...) or a random string over [a-zA-Z0-9._/ -], or a composition of 1-6 segments from {'..', '.', '', a, x, db, orbitdb, <root>} with zero, one or two leading slashes; write list in {none, *, [p0], [p0,p1], [p1,p2]}. For every tuple: DetermineAddress twice on one peer and (explicit list) on a second peer must agree (same address, or refused on both); the printed address parses back to the same root, path and text; the root block is a manifest recording exactly this name and type; within the case equal inputs (name, type, effective write list) give equal addresses and different inputs different ones; Create returns a store at that address and of that type, a second Create is refused, with Overwrite accepted; Open on another peer gives the same type and GetAuthorizedByRole(write) == the list given (or the creator's id); a local-only Open is refused on a peer that never saw the database and accepted on the creator. A refusal by DetermineAddress/Create is accepted for any name. non-trivial = an accepted name containing a '.'/'..' segment or embedding an earlier root; distinct = SHA-1 of the case JSON",
     "level_text": "Generated names/configurations; injectivity is checked within each case, not globally.",
     "level_note": "Persistence is the harness's recorded datastore behind cache.Interface (same keys as cacheleveldown). Access controller type ipfs.",
     "design_ref": "5/C14",
@@ -189,7 +189,7 @@ CHECKS["C09"] = {
     "tests": [T("TestC09", 100, 2000)],
     "level": "exploration",
     "technique": "property-based testing (rapid): generated sets of 2-4 databases on one instance (shared default bus) with interleaved writes, loads and replications; frame-condition oracle (everything about the untouched databases is unchanged) plus transport-log and event-bus invariants",
-    "rule": "rapid draws 2-4 databases (type, write list) opened on one instance with the default shared event bus, on a second replicating instance (so every topic has a peer) and on an author instance, and 2-9 actions write(db, n) / load(db) / replicate(db, n: entries authored elsewhere and synced in). Around every action, at rest: (b) every other database of the instance has the same entries, view, replication progress/max and cached _localHeads/_remoteHeads bytes as before; (a) every message recorded by the simulated transport names the topic's own database, the instance only sends messages for the touched database, and every head carried has that database's log id; (c) every store event seen on the instance's bus (write, replicate, replicate-progress, replicated, load, load-progress, ready) has the touched database's address and carries only its entries. non-trivial = an untouched database was non-empty and had a topic peer; distinct = SHA-1 of the case JSON",
+    "rule": "rapid draws 2-4 databases (type, write list) opened on one instance with the default shared event bus, on a second replicating instance (so every topic has a peer) and on an author instance, and 2-9 actions write(db, n) / load(db) / replicate(db, n: entries authored elsewhere and synced in) / racewrite(db: the write's announcement is held in a slow topic peer lookup while another database is written, then released). Around every action, at rest: (b) every other database of the instance has the same entries, view, replication progress/max and cached _localHeads/_remoteHeads bytes as before; (a) every message recorded by the simulated transport names the topic's own database, the instance only sends messages for the touched database, and every head carried has that database's log id; (c) every store event seen on the instance's bus (write, replicate, replicate-progress, replicated, load, load-progress, ready) has the touched database's address and carries only its entries. non-trivial = an untouched database was non-empty and had a topic peer; distinct = SHA-1 of the case JSON",
     "level_text": "Generated configurations and histories; no exhaustiveness claimed.",
     "level_note": "Quiescence is decided per store from hook counters; the second instance's echo traffic for the touched database is allowed.",
     "design_ref": "5/C09",
@@ -208,10 +208,10 @@ CHECKS["C02"] = {
 }
 
 CHECKS["C05"] = {
-    "tests": [T("TestC05", 40, 1200)],
+    "tests": [T("TestC05", 80, 1200)],
     "level": "fault_enumeration",
     "technique": "crash-point enumeration: every prefix of the journaled persistence effects (block writes incl. fetched blocks, cache puts/deletes) of generated histories (rapid) is materialised as a fresh offline peer and recovered; oracle = acknowledged subset, written superset, ancestry closure, model replay, identity, writability",
-    "rule": "rapid draws a store type, 0-2 other writers and up to 8 (quick) / 12 (thorough) steps on the replica under test: runs of local writes, remote writes, merges (manual Sync of another writer's heads), clean restarts (instance closed, recreated on the same recorded disk, Load(-1): everything acknowledged so far must be there, identity unchanged). Every persistence effect of the replica is journaled in issue order with acknowledgement marks (write call returned; replicated event observed). Then every prefix of the journal after database creation (all of them up to 40 effects, otherwise first, last, the last 12 and 12 drawn ones) is materialised: a fresh offline kubo node holding exactly those blocks and a disk holding exactly those datastore writes; a new instance with the same peer key opens the database and Load(-1)s it. Oracle per crash point: identity unchanged; recovered entries include everything acknowledged before the cut, are all entries that were really written, are closed under next; Values() == (time,id) order; view == LWW replay of the recovered entries; a new write succeeds. non-trivial = a cut falls between an entry's block write and the head put, or the history contains a replicated batch; distinct = SHA-1 of the case JSON",
+    "rule": "rapid draws a store type, 0-2 other writers and up to 8 (quick) / 12 (thorough) steps on the replica under test: runs of local writes, remote writes, merges (manual Sync of another writer's heads; one case in six ends with two remote writers' concurrent branches merged in separate rounds and nothing local afterwards), clean restarts (instance closed, recreated on the same recorded disk, Load(-1): everything acknowledged so far must be there, identity unchanged). Every persistence effect of the replica is journaled in issue order with acknowledgement marks (write call returned; replicated event observed). Then every prefix of the journal after database creation (all of them up to 40 effects, otherwise first, last, the last 12 and 12 drawn ones) is materialised: a fresh offline kubo node holding exactly those blocks and a disk holding exactly those datastore writes; a new instance with the same peer key opens the database and Load(-1)s it. Oracle per crash point: identity unchanged; recovered entries include everything acknowledged before the cut, are all entries that were really written, are closed under next; Values() == (time,id) order; view == LWW replay of the recovered entries; a new write succeeds. non-trivial = a cut falls between an entry's block write and the head put, or the history contains a replicated batch; distinct = SHA-1 of the case JSON",
     "level_text": "All crash points of each generated history are enumerated when the journal has at most 40 effects (the usual case); longer journals are sampled. Histories themselves are sampled.",
     "level_note": "Assumption from the statement: an effect is durable once its call returns, effects become durable in issue order. Disk = recorded datastore behind cache.Interface and the keystore datastore; real leveldb close/reopen cycles are exercised by C18.",
     "design_ref": "5/C05",
@@ -222,7 +222,7 @@ CHECKS["C18"] = {
     "tests": [T("TestC18", 60, 1500)],
     "level": "exploration",
     "technique": "property-based testing (rapid): generated instance configurations and close/drop moments (idle, mid-write, with a replication's fetches parked by the harness) on real leveldb directories; watchdogged post-close calls, goroutine attribution from runtime stacks, reopen-and-compare",
-    "rule": "rapid draws 1-3 databases (type, 0-4 acknowledged local writes, 0-3 entries authored elsewhere, replication state none / merged / in flight with every fetch parked), a closing action on a target database or on the instance (Close once, twice, twice concurrently; Drop; instance Close once, twice, concurrently), whether the parked fetches are released before or after the close call, and whether a goroutine keeps writing to the target during the close. The instance under test lives on a real leveldb directory (library defaults) with the simulated transports. Oracle: the closing call and every public operation afterwards on the closed object (write, view, Load, Sync, LoadFromSnapshot, SaveSnapshot, ReplicationStatus, Close; Open/Create/DetermineAddress on a closed instance) returns without panic within a 20 s watchdog; sibling databases of a closed or dropped store stay writable and keep their entries; after the instance is closed no goroutine whose creator frame is in berty.tech/go-orbit-db (and that did not exist before the instance was created) is left after a polling window; a new instance on the same directory reopens every database, Load(-1) shows every acknowledged write (incl. those acknowledged to the concurrent writer), a dropped database is empty and the siblings' directories still exist. non-trivial = closed with a replication parked, or the instance held >= 2 databases; distinct = SHA-1 of the case JSON",
+    "rule": "rapid draws 1-3 databases (type, 0-4 acknowledged local writes, 0-3 entries authored elsewhere, replication state none / merged / replication in flight with every fetch parked / store reopened and its Load in flight, parked in its first fetch), a closing action on a target database or on the instance (Close once, twice, twice concurrently; Drop; instance Close once, twice, concurrently), whether the parked fetches are released before or after the close call, and whether a goroutine keeps writing to the target during the close. The instance under test lives on a real leveldb directory (library defaults) with the simulated transports. Oracle: the closing call and every public operation afterwards on the closed object (write, view, Load, Sync, LoadFromSnapshot, SaveSnapshot, ReplicationStatus, Close; Open/Create/DetermineAddress on a closed instance) returns without panic within a 20 s watchdog; sibling databases of a closed or dropped store stay writable and keep their entries; after the instance is closed no goroutine whose creator frame is in berty.tech/go-orbit-db (and that did not exist before the instance was created) is left after a polling window; a new instance on the same directory reopens every database, Load(-1) shows every acknowledged write (incl. those acknowledged to the concurrent writer), a dropped database is empty and the siblings' directories still exist. a Load that was in flight returns within the watchdog; non-trivial = closed with a replication or a Load parked, or the instance held >= 2 databases; distinct = SHA-1 of the case JSON",
     "level_text": "Generated close moments; the only harness-owned in-flight state is the parked block fetch. Leaks are judged after a bounded wait: a goroutine still alive at its end is reported with its stack.",
     "level_note": "The watchdog (20 s) and the leak window (8 s) only bound waits; under the driver a failure must reproduce when the case is re-executed. The bundled pubsub adapters are exercised by C20, not here.",
     "design_ref": "5/C18",
